@@ -203,16 +203,18 @@ pub fn cache_pressure(args: &[String]) {
     // MBC3 with 128 banks; bank b (1..banks) holds a chain of JPs from 0x4000 upwards, the last one
     // jumps to a trampoline in bank 0 that maps bank b + 1 and jumps to 0x4000
     let mut core = new_core(0x11, 128, 0);
-    // every block: LD A,(HL) ; JP next  (4 source bytes, a memory-read call in the translation)
-    let per_bank = 4000usize;
+    // every block: LD A,<bank> ; LD B,(HL) ; JP next  (6 source bytes, a memory-read call in the translation): a block
+    // identifies the bank it was translated from, so that after each step the recorder can tell whether the code that
+    // ran is the code mapped there now (the chain goes round the banks again and again)
+    let per_bank = 2700usize;
     core.registers.hl = 0xc000;
     for b in 1..=banks {
       let base = b * 0x4000;
       for i in 0..per_bank {
-        let a = 0x4000 + 4 * i;
-        let next = if i + 1 < per_bank { a + 4 } else { 0x0200 + 16 * b };
-        core.memory.rom[base + 4 * i] = 0x7e;
-        core.memory.rom[base + 4 * i + 1] = 0xc3; core.memory.rom[base + 4 * i + 2] = next as u8; core.memory.rom[base + 4 * i + 3] = (next >> 8) as u8;
+        let a = 0x4000 + 6 * i;
+        let next = if i + 1 < per_bank { a + 6 } else { 0x0200 + 16 * b };
+        let code = [0x3e, b as u8, 0x46, 0xc3, next as u8, (next >> 8) as u8];
+        for (k, x) in code.iter().enumerate() { core.memory.rom[base + 6 * i + k] = *x; }
       }
       let t = 0x0200 + 16 * b;
       let nb = if b < banks { b + 1 } else { 1 };
@@ -230,8 +232,15 @@ pub fn cache_pressure(args: &[String]) {
         out.extend_from_slice(lastline.as_bytes()); out.push(b'\n');
         out.extend_from_slice(format!("#D {}\n", 0).as_bytes());
       }
+      let pc0 = core.registers.ip as usize;
+      let bank0 = core.memory.get_rom_bank();
       core.update();
       done = k + 1;
+      if pc0 >= 0x4000 && pc0 < 0x8000 && (core.registers.af >> 8) as usize != bank0 {
+        let line = json!({"kind": "wrong-bank-code", "step": k, "pc": pc0, "mapped_bank": bank0, "code_of_bank": core.registers.af >> 8});
+        out.extend_from_slice(line.to_string().as_bytes()); out.push(b'\n');
+        break;
+      }
     }
     let printed = cap.take();
     let (cursor, capacity, _, _) = core.cache.verif_snapshot();
